@@ -42,7 +42,7 @@ CLAIMED = {
          'Decides the listed structural clauses; does not decide agreement with a reference model over operation sequences or as<T>() exactness.',
          'DESIGN.md §4 C09'),
  'C19': ('exception-safety typestate over the CFG (destroyed -> re-initialised), dominance of the patch unwinder',
-         'Static typestate: between basic_json::destroy() and the re-initialisation of *this no call that may throw (callee not noexcept) is reachable; apply_patch constructs its automatic-storage unwinder before the first mutation. Quantifies over all paths through the functions, i.e. every allocation point between the two events. Also: the JSON Patch unwinder rolls back in every state except commit (R15.6).',
+         'Static typestate: between basic_json::destroy() and the re-initialisation of *this no call that may throw (callee not noexcept) is reachable; apply_patch constructs its automatic-storage unwinder before the first mutation. Quantifies over all paths through the functions, i.e. every allocation point between the two events. Also: the JSON Patch unwinder rolls back in every state except commit (R15.6). Also: raw allocate() results are protected against every following may-throw operation (R19.2, nothrow inferred from bodies) and heap_string blocks are returned with the size they were requested with (R19.3, symbolic comparison).',
          'Decides the listed clauses; does not decide that rollback itself cannot fail, nor byte balance of allocate/deallocate.',
          'DESIGN.md §4 C19'),
  'C14': ('partial evaluation of the escape writers and of the pointer tokenizer into per-character tables; dominance rules for the index grammar test and the bounds rejection; reachability rule error-store-after-mutation',
